@@ -64,7 +64,7 @@ func repoDir() string {
 }
 
 func allPatterns() []string {
-	return []string{"./coreV2/...", "./formula", "./rlp", "./crypto", "./math", "./tree", "./upgrades"}
+	return []string{"./coreV2/...", "./formula", "./rlp", "./crypto", "./math", "./tree", "./upgrades", "./helpers"}
 }
 
 // cmdVerify: developer command. govc verify [-v] [-pkg pattern] [-tier t] name-substring...
